@@ -27,6 +27,7 @@ from sa.pyfront import Program
 from sa.symex import Interp
 
 RULES = {
+    "R-C02-j": "the index-cube fill closures come in a traced and an untraced variant (timing diagnostics): both store the same cell values",
     "R-C02-i": "pooled evaluation: reduce (marginal differencing) runs only after every sub-cube task has finished - blocking, re-raising dispatch on a pool created for the call (imported from the C16 analysis)",
     "R-C02-h": "every region an aggregate allocates is 64-bit int/float (or the fact array's own dtype): wide enough for any row count and for the negative intermediate values of marginal differencing",
     "R-C02-g": "every sub-cube task walks its dimensions: the task function has no early return (one taken only when NO dimension has an entry is harmless; one taken when SOME dimension has none skips the margins of the others)",
@@ -208,6 +209,11 @@ def main(tier):
     rule_c(prog, rep)
     rule_d(prog, rep)
     rule_e(prog, rep)
+    CT2 = AT.Collector()
+    nt2 = AT.rule_tracing_twins(prog, CT2, "R-C02-j", classes=("count",))
+    for rule, status, where, cons, detail, wit in CT2.items:
+        rep.add(rule, where, cons, status, detail, True, wit)
+    rep.floor("R-C02-j", 2, nt2)
     CD = AT.Collector()
     nd = AT.rule_region_dtypes(prog, CD, "R-C02-h", classes=("count",))
     for rule, status, where, cons, detail, wit in CD.items:
